@@ -12,6 +12,7 @@ Tie (this file): the SAME extracted [eval]/[vjp] run in IEEE doubles (ocaml/bin/
                      value and d/dx (and d/d unwrapped field) on the boundary-directed input set the model enumerates
                      ([crit]): values 1e-9 rel, inf/NaN classes must agree both ways;
   method-tie         the term of every bijection method alone (transform, inverse, both log-dets, spline derivative);
+  chain-tie          the composed term lp_chain vs Transformed(Normal, [Invert] Chain[2-4 layers of Affine/LeakyTanh/spline]);
   value-classes      the where(isnan, -inf) post-processing on the four classes Fin/+inf/-inf/NaN.
 Search oracle (the property itself, implementation only): wherever log_prob is finite, jax.grad w.r.t. x and the gradient
 w.r.t. every inexact leaf are finite; log_prob is never NaN -- on the leaf set and on every flow factory.
@@ -42,8 +43,13 @@ MANIFEST = {
             "and run in IEEE doubles, reproduce jax.grad's finite/inf/NaN pattern of the real Transformed(...).log_prob on boundary-directed "
             "inputs (interval ends, every knot, +-max_val, +-tanh(max_val), +-1, 0, float neighbours, magnitudes to 1e4, nan/inf) both ways. "
             "The extracted terms also agree method by method (transform, inverse, log-dets, spline derivative) with jax.grad of the methods. "
+            "COMPOSITIONS (coq/Props/X18_chain.v): the log_prob term of Transformed(base, [Invert] Chain[layers]) built as chain.py builds it "
+            "(every intermediate point and log-det let-bound once) is Safe whenever each layer's parameters are valid and the running value meets "
+            "the domain condition of the layer it enters (safe_compose); chains of Affine / LeakyTanh / spline layers (each possibly Invert) of ANY "
+            "length and order need no domain condition: finite log_prob and finite gradients w.r.t. the input and every parameter of every layer; "
+            "the extracted composed term is compared with real Transformed(Normal, Chain[2-4 random layers]) objects (unit chain-tie). "
             "PARTIAL: exact over R -- float overflow/underflow is not in the theorems (it is in the executed model); conditioner networks, "
-            "BNAF log-space matrices and combinators are covered by the property's own oracle only (all five factories, initial and perturbed "
+            "BNAF log-space matrices and the array-level combinators (Vmap, Scan, Concatenate, ...) are covered by the property's own oracle only (all five factories, initial and perturbed "
             "parameters, dims 1-3), not by theorems.",
     "note": "Trusted: Coq kernel, axioms of Reals as printed by Print Assumptions, extraction (ExtrOcamlBasic), OCaml float primitives (libm), "
             "harness; the adjoint rules are transcribed by hand from jax/_src/lax/lax.py and checked on every run against jax.vjp of each "
@@ -393,10 +399,14 @@ def run_leaf(ctx, u, uo, ds, pg, n_rand):
             errs.append(f"model says Safe (all partial primitives inside their domains) but the implementation's d/dx is {float(gx[i])!r}")
         if fields and len(t) >= 8:
             mg = [[fparse(s) for s in t[4 + j].split(",")] for j in range(3)]
+            # a parameter gradient is a sum of terms that may cancel (ill-conditioned bins: d/dx ~ 1e9, d/dx_pos ~ 1e-4): allow 1e-12 of the
+            # largest finite gradient component on top of the relative 1e-6 (summation order differs between JAX and the tree-shaped model)
+            comps = [abs(float(gx[i]))] + [abs(float(b)) for _, arr in fields for b in arr[i]]
+            floor = 1e-12 * max([c_ for c_ in comps if math.isfinite(c_)] + [0.0])
             for j, (fname, arr) in enumerate(fields):
                 for kk in range(arr.shape[1]):
                     a, b = mg[j][kk], arr[i, kk]
-                    if cls(a) != cls(b) or (cls(v[i]) == "fin" and not close(a, b, 1e-6)):
+                    if cls(a) != cls(b) or (cls(v[i]) == "fin" and not close(a, b, 1e-6) and not abs(a - b) <= floor):
                         errs.append(f"d/d{fname}[{kk}]: model {a!r} implementation {float(b)!r}")
                         break
         # the property itself on the implementation (raw parameters), plus unwrapped-field gradients
@@ -482,6 +492,166 @@ def probe_specs(ctx):
 def sha_ds(ds):
     from harness.common import sha
     return sha(ds)
+
+
+# =============================================================== 2b. chains of leaves
+def chain_spec(ctx):
+    """Transformed(Normal | StandardNormal, [Invert] Chain[2-4 layers from Affine / LeakyTanh / spline, each possibly Invert])"""
+    r = ctx.rng
+    n = int(r.integers(2, 5))
+    layers = []
+    for _ in range(n):
+        k = ["affine", "leaky", "rqs"][int(r.integers(0, 3))]
+        if k == "affine":
+            sc = float(np.exp(r.normal(0, 0.7))) * (1 if r.random() < 0.7 else -1)
+            spec = dict(kind="affine", loc=fhex(r.normal(0, 1.5)), scale=fhex(sc), plain=bool(sc < 0 or r.random() < 0.5))
+        elif k == "leaky":
+            spec = dict(kind="leaky", max_val=fhex([3.0, 0.7, 1.5, 5.0][int(r.integers(0, 4))]))
+        else:
+            knots = int(r.integers(1, 7))
+            iv = [[-2.0, 2.0], [-1.0, 1.0], [1.0, 3.0], [-4.0, -0.5], [-1.5, 3.0], [0.0, 5.0]][int(r.integers(0, 6))]
+            s_ = [0.0, 1.0, 2.0][int(r.integers(0, 3))]
+            spec = dict(kind="rqs", knots=knots, interval=[fhex(v) for v in iv], x_raw=[fhex(v) for v in r.normal(0, s_, knots)],
+                        y_raw=[fhex(v) for v in r.normal(0, s_, knots)], d_raw=[fhex(v) for v in r.normal(-0.5, s_, knots + 2)])
+        layers.append(dict(leaf=spec, inverted=bool(r.integers(0, 2))))
+    base = None if r.random() < 0.3 else dict(loc=fhex(r.normal(0, 1)), scale=fhex(float(np.exp(r.normal(0, 0.5)))))
+    return dict(layers=layers, outer_inverted=bool(r.integers(0, 2)), base=base)
+
+
+def make_chain_dist(cs):
+    l = L()
+    B, D = l["B"], l["D"]
+    bs = []
+    for ly in cs["layers"]:
+        leaf = make_leaf(ly["leaf"])
+        bs.append(B.Invert(leaf) if ly["inverted"] else leaf)
+    bij = B.Chain(bs)
+    if cs["outer_inverted"]:
+        bij = B.Invert(bij)
+    base = D.StandardNormal(()) if cs["base"] is None else D.Normal(fparse(cs["base"]["loc"]), fparse(cs["base"]["scale"]))
+    return D.Transformed(base, bij)
+
+
+def chain_model_args(cs, ud):
+    """(layers token, scalars token, arrays token) of the `chain` request, from the UNWRAPPED real object"""
+    ch = ud.bijection.bijection if cs["outer_inverted"] else ud.bijection
+    sc = [0.0, 1.0] if cs["base"] is None else [float(ud.base_dist.bijection.loc), float(ud.base_dist.bijection.scale)]
+    arrays, toks, leaves = [], [], []
+    for ly, b in zip(cs["layers"], ch.bijections):
+        lf = b.bijection if ly["inverted"] else b
+        leaves.append(lf)
+        k = ly["leaf"]["kind"]
+        s7 = [0.0, 1.0, 0.0, 0.0, 0.0, 0.0, 1.0]
+        arrs = [[], [], []]
+        if k == "leaky":
+            s7[0:3] = [lf.max_val, lf.linear_grad, lf.intercept]
+        elif k == "rqs":
+            s7[3:5] = [lf.interval[0], lf.interval[1]]
+            arrs = [list(np.asarray(a, dtype=float)) for a in (lf.x_pos, lf.y_pos, lf.derivatives)]
+        else:
+            s7[5:7] = [float(lf.loc), float(lf.scale)]
+        sc += [float(v) for v in s7]
+        arrays += arrs
+        toks.append(f"{k}:{int(ly['inverted'])}")
+    return ",".join(toks), hexlist(sc), ";".join(hexlist(a) for a in arrays), leaves
+
+
+def chain_inputs(ctx, cs, leaves, crit, n_rand):
+    """boundary-directed inputs of a chain: every constant a layer compares its own input against, pulled back to the input of
+    log_prob through the (analytic) inverses of the steps before it; their float neighbours; the raw constants; magnitudes; random"""
+    l = L()
+    jax, jnp = l["jax"], l["jnp"]
+    n = len(leaves)
+    order = list(range(n)) if cs["outer_inverted"] else list(range(n - 1, -1, -1))     # the order log_prob visits the layers
+    steps = []
+    for j in order:
+        fwd = cs["outer_inverted"] != cs["layers"][j]["inverted"]                        # leaf.transform (else leaf.inverse) is applied
+        steps.append((leaves[j], fwd, cs["layers"][j]["leaf"]["kind"]))
+    pts = set()
+    for k, (lf, fwd, kind) in enumerate(steps):
+        if kind == "leaky":
+            cands = [lf.max_val, -lf.max_val] if fwd else [math.tanh(lf.max_val), -math.tanh(lf.max_val), 1.0, -1.0]
+        elif kind == "rqs":
+            arr = np.asarray(lf.x_pos if fwd else lf.y_pos, dtype=float)
+            cands = list(arr) + [float(arr[0]) - 0.5, float(arr[-1]) + 0.5]
+        else:
+            cands = [0.0]
+        v = jnp.asarray(np.array(cands, dtype=float))
+        for (plf, pfwd, _) in reversed(steps[:k]):                                       # undo the earlier steps
+            v = jax.vmap(plf.inverse if pfwd else plf.transform)(v)
+        pts |= {float(t) for t in np.asarray(v, dtype=float) if math.isfinite(t)}
+    pts = sorted(pts)
+    out = neighbours(pts)
+    out += [c for c in crit if math.isfinite(c)][:40]
+    out += [0.0, 1.0, -1.0, 1e-300, 0.3, -0.7, 2.5, -2.5, 10.0, -10.0, 37.5, 100.0, -100.0, 1e3, -1e4, 1e4]
+    out += [float(t) for t in ctx.rng.normal(0, 2, n_rand)]
+    out += [math.nan, math.inf, -math.inf]
+    seen, res = set(), []
+    for p_ in out:
+        key = fhex(p_)
+        if key not in seen:
+            seen.add(key)
+            res.append(p_)
+    return res[:NP]
+
+
+def chain_repro(cs, x):
+    return ("cd /repo && JAX_PLATFORMS=cpu PYTHONPATH=/repo:/verif /venv/bin/python -c \"from harness import common, c18; common.init_jax(); import jax, jax.numpy as jnp; "
+            f"d = c18.make_chain_dist({cs!r}); x = jnp.asarray(float.fromhex('{float(x).hex()}') if {math.isfinite(x)} else float('{x}')); "
+            "print(d.log_prob(x), jax.grad(d.log_prob)(x))\"")
+
+
+def run_chain(ctx, uc, uo, cs, n_rand):
+    l = L()
+    W = l["W"]
+    dist = make_chain_dist(cs)
+    ud = W.unwrap(dist)
+    ltok, stok, atok, leaves = chain_model_args(cs, ud)
+    head = f"{int(cs['base'] is not None)} {int(cs['outer_inverted'])} {ltok} {stok} {atok}"
+    cl = ctx.model([f"chaincrit {head} {fhex(0.0)}"])[0]
+    crit = [] if cl == "-" else [fparse(t) for t in cl.split(",")]
+    xs = chain_inputs(ctx, cs, leaves, crit, n_rand)
+    v, gx, pfin = impl_raw(dist, xs)
+    model = ctx.model([f"chain {head} {fhex(x)}" for x in xs])
+    desc = ("Invert(" if cs["outer_inverted"] else "") + "Chain[" + ", ".join(
+        ("Invert " if ly["inverted"] else "") + ly["leaf"]["kind"] for ly in cs["layers"]) + "]" + (")" if cs["outer_inverted"] else "")
+    basek = "StandardNormal" if cs["base"] is None else "Normal"
+    for i, x in enumerate(xs):
+        t = model[i].split()
+        mv, mgx, msafe, mar = fparse(t[1]), fparse(t[2]), t[3] == "1", fparse(t[4])
+        # a branch point within 1e-9 (relative) of the value compared with it: one-ulp differences between libm and XLA upstream may
+        # select the other branch -- value and d/dx are then compared by inf/NaN class only (counted as .../other-branch-taken)
+        amb = not (mar >= 1e-9)
+        excused = amb and cls(v[i]) == "fin" and cls(mgx) == cls(gx[i]) and not (close(mv, v[i], 1e-9) and close(mgx, gx[i], 1e-6))
+        uc.count((sha_ds(cs), fhex(x)), nontrivial=(amb or cls(v[i]) != "fin" or not math.isfinite(x)),
+                 tag=f"{len(cs['layers'])}-layers/{cls(v[i])}/grad-{cls(gx[i])}" + ("/at-branch-point" if amb else "") + ("/other-branch-taken" if excused else ""))
+        errs = []
+        # (the spline is C0 but not C1 at its interval ends -- boundary derivatives are free parameters -- so even the VALUE of log_prob jumps there)
+        if not close(mv, v[i], 1e-9) and not (amb and cls(mv) == cls(v[i])):
+            errs.append(f"value: model {mv!r} implementation {float(v[i])!r}")
+        if cls(mgx) != cls(gx[i]) or (cls(v[i]) == "fin" and not amb and not close(mgx, gx[i], 1e-6)):
+            errs.append(f"d/dx: model {mgx!r} implementation {float(gx[i])!r}")
+        if msafe and math.isfinite(mv) and abs(x) <= 30 and not math.isfinite(gx[i]):
+            errs.append(f"model says Safe but the implementation's d/dx is {float(gx[i])!r}")
+        oerr = oracle_point(float(v[i]), float(gx[i]), bool(pfin[i]))
+        uo.count(("chain", sha_ds(cs), fhex(x)), nontrivial=math.isfinite(x) and math.isfinite(v[i]), tag=f"chain/{len(cs['layers'])}-layers")
+        case = dict(unit="chain", chain=cs, x=fhex(x))
+        if i == 0 and len(ctx.samples) < 11:
+            ctx.sample(dict(case=case, implementation=dict(log_prob=float(v[i]), ddx=float(gx[i]), param_grads_finite=bool(pfin[i])),
+                            model=dict(log_prob=mv, ddx=mgx, safe=msafe, margin=mar)))
+        if oerr:
+            ctx.violation(sig=f"oracle:chain:{oerr.split(' (')[0].split(' but ')[-1][:40]}",
+                          what=f"Transformed({basek}, {desc}).log_prob at x={x!r}: {oerr}" + (f"; model: {errs[0]}" if errs else ""),
+                          case=case, found_input=True, unit=uo.name, expected="finite gradients wherever log_prob is finite; never NaN",
+                          observed=dict(log_prob=float(v[i]), ddx=float(gx[i]), param_grads_finite=bool(pfin[i])),
+                          broken="property oracle on the implementation" + ("; correspondence chain-tie" if errs else ""), reproducer=chain_repro(cs, x))
+        if errs:
+            uc.disagreements += 1
+            if not oerr:
+                ctx.violation(sig=f"tie:chain:{errs[0].split(':')[0]}:{'nonfinite-input' if not math.isfinite(x) else 'finite-input'}",
+                              what=f"model != implementation for Transformed({basek}, {desc}).log_prob at x={x!r}: " + "; ".join(errs[:3]),
+                              case=case, found_input=False, unit=uc.name, expected=dict(log_prob=mv, ddx=mgx), observed=dict(log_prob=float(v[i]), ddx=float(gx[i])),
+                              broken="correspondence chain-tie (Model/Expr.lp_chain vs chain.py + AbstractTransformed._log_prob)", reproducer=chain_repro(cs, x))
 
 
 # =============================================================== 3. value classes
@@ -648,7 +818,14 @@ def run(ctx):
                        "boundary-directed inputs (gradients w.r.t. x and all raw parameters) and every factory of flowjax.flows (dims 1-3, initial and "
                        "perturbed trainable parameters, inputs with coordinates from the leaves' boundary sets, nan/inf rows): log_prob finite => "
                        "every gradient finite; log_prob never NaN; non-trivial = finite input with finite log_prob (flows) / boundary input or non-finite value (leaves)")
+    import subprocess
     import time
+    from harness.common import VERIF
+    # the composition theorems (coq/Props/X18_chain.v, lemmas in Proofs/SafeChainP.v) are obligations of this check too
+    r = subprocess.run([os.path.join(VERIF, "build.sh"), "X18_chain"], capture_output=True, text=True, timeout=3000)
+    ctx.obligation("coq-build Props/X18_chain.vo", "BUILD-OK" in r.stdout, (r.stdout + r.stderr)[-1500:] if "BUILD-OK" not in r.stdout else "")
+    if "BUILD-OK" in r.stdout:
+        ctx.theorems("Props/X18_chain.v")
     t0 = time.time()
     ok = selftest(ctx)
     value_classes(ctx)
@@ -687,6 +864,15 @@ def run(ctx):
             continue
         run_methods(ctx, um, spec, n_rand)
     ctx.notes.append(f"method tie {time.time() - t0:.1f}s")
+    t0 = time.time()
+    uc = ctx.unit("chain-tie", "extracted eval/vjp of the COMPOSED term Model/Expr.lp_chain vs the real Transformed(Normal | StandardNormal, [Invert] "
+                               "Chain[2-4 layers from Affine / LeakyTanh / RationalQuadraticSpline, each possibly Invert]).log_prob and jax.grad (un-jitted): "
+                               "value 1e-9 rel, d/dx 1e-6 rel where finite, inf/NaN classes equal everywhere; inputs = every layer's branch constants pulled "
+                               "back through the earlier steps + neighbours + raw constants + magnitudes + random; within 1e-9 (relative) of a branch "
+                               "point value and d/dx are compared by inf/NaN class only (log_prob itself jumps at a spline's interval ends); non-trivial = at a branch point, non-finite value or non-finite input")
+    for _ in range(8 if ctx.quick else 80):
+        run_chain(ctx, uc, uo, chain_spec(ctx), 10 if ctx.quick else 30)
+    ctx.notes.append(f"chain tie {time.time() - t0:.1f}s")
     t0 = time.time()
     run_flows(ctx)
     ctx.notes.append(f"flow oracle {time.time() - t0:.1f}s")
@@ -730,6 +916,21 @@ def replay(ctx, rep):
         bad = (v[0] != v[0]) or (math.isfinite(v[0]) and not bool(fin[0]))
         print("log_prob", float(v[0]), "d/dx", [float(t) for t in gx[0]], "all gradients finite", bool(fin[0]))
         return not bad
+    if c.get("unit") == "chain":
+        dist = make_chain_dist(c["chain"])
+        x = fparse(c["x"])
+        v, gx, pfin = impl_raw(dist, [x])
+        err = oracle_point(float(v[0]), float(gx[0]), bool(pfin[0]))
+        print("log_prob", float(v[0]), "d/dx", float(gx[0]), "parameter gradients finite", bool(pfin[0]), "->", err or "holds")
+        ok = err is None
+        if rep.get("kind") != "input":
+            ltok, stok, atok, _ = chain_model_args(c["chain"], l["W"].unwrap(dist))
+            t = ctx.model([f"chain {int(c['chain']['base'] is not None)} {int(c['chain']['outer_inverted'])} {ltok} {stok} {atok} {fhex(x)}"])[0].split()
+            amb = not (fparse(t[4]) >= 1e-9)
+            same = cls(fparse(t[1])) == cls(v[0]) and cls(fparse(t[2])) == cls(gx[0]) and (amb or (close(fparse(t[1]), v[0], 1e-9) and (cls(v[0]) != "fin" or close(fparse(t[2]), gx[0], 1e-6))))
+            print("model", fparse(t[1]), fparse(t[2]), "margin", fparse(t[4]), "agree" if same else "DISAGREE")
+            ok = ok and same
+        return ok
     if c.get("unit") == "method":
         u = ctx.unit("method-tie", "replay")
         n0 = len(ctx.violations)
